@@ -36,6 +36,7 @@ def main(argv=None):
                 level=getattr(mod, "LEVEL", "exploration"),
                 rule=getattr(mod, "RULE", ""))
     R = Runner()
+    R.max_timeout = 300 if args.tier == "quick" else 3600
     try:
         try:
             mod.run(chk, R, args.tier, args.seed)
